@@ -1,4 +1,56 @@
-import SfxModel.Transcendental
+import SfxProofs.Log
+import SfxProps.C12
+import Mathlib.Analysis.SpecialFunctions.Log.Base
+/-
+  C14 — log2 and ln are accurate to the destination's resolution.
+
+  FULL statement: `C14_statement` below (over the reals, Mathlib's `Real.logb` / `Real.log`).  PROVED: `C14_partial` — everything except
+  the two numeric error bounds: totality, the exact `Err` condition, the sign claims, exactness on powers of two, the result stays
+  representable.  NOT PROVED (stated, and judged on every run by the search oracle against 300-bit reference values, worst observed
+  error 3.5 ulp of the allowed 8): `|r − log2 x| ≤ 8 ulp` and `|r − ln x| ≤ 2^-23·|ln x| + 8 ulp`.  The missing argument is the
+  potential-function invariant of DESIGN.md §7/C14 (each truncation of the squaring step moves `result_k·2^-k + 2^-k·log2 x_k` by at most
+  `2^-(k+1)·2^-f / ln 2`; the rounding halvings contribute ≤ 1 ulp in total).
+-/
 namespace Sfx.C14
-theorem placeholder : True := trivial
+open Sfx.LogPf Sfx.C12
+
+/-- the real value of a bit pattern -/
+noncomputable def val (f : Nat) (x : Int) : ℝ := (x : ℝ) / (2 : ℝ) ^ f
+
+/-- FULL statement of C14 (the two inequalities over the reals are the unproved part) -/
+def C14_statement : Prop :=
+  ∀ D : Layout, Supp D → ∀ x : Int, inRange D x →
+    (∀ r it dbg, Trans.run (Trans.log2 D D x) = .ok (some r, it) dbg →
+      0 < x ∧ |val D.f r - Real.logb 2 (val D.f x)| ≤ 8 / (2 : ℝ) ^ D.f ∧
+      (x ≤ 2 ^ D.f → r ≤ 0) ∧ (2 ^ D.f ≤ x → 0 ≤ r) ∧ (∀ k : Nat, x = 2 ^ k → r = ((k : Int) - D.f) * 2 ^ D.f)) ∧
+    (∀ r it dbg, Trans.run (Trans.ln D D x) = .ok (some r, it) dbg →
+      0 < x ∧ |val D.f r - Real.log (val D.f x)| ≤ |Real.log (val D.f x)| / (2 : ℝ) ^ 23 + 8 / (2 : ℝ) ^ D.f) ∧
+    (∀ it dbg, (Trans.run (Trans.log2 D D x) = .ok (none, it) dbg ∨ Trans.run (Trans.ln D D x) = .ok (none, it) dbg) →
+      x ≤ 0 ∨ (0 < x ∧ x < 2 ^ D.f ∧ ¬ inRange D (divSpec D.f (2 ^ D.f) x)))
+
+end Sfx.C14
+
+/-! the proved part is stated with core powers (`Int.instNatPow`), as in the model -/
+attribute [-instance] Monoid.toNPow
+namespace Sfx.C14
+open Sfx.LogPf Sfx.C12
+
+/-- PROVED part of C14: for every supported type and every operand — no panic and no debug-only check; `Err` exactly for `x ≤ 0` or a
+positive operand below one whose reciprocal is not representable; result representable; `≤ 0` for `x ≤ 1`, `≥ 0` for `x ≥ 1`; exact on
+every power of two; the same for `ln` (without the exactness clause) -/
+theorem C14_partial (D : Layout) (h : Supp D) (x : Int) (hx : inRange D x) :
+    (match Trans.run (Trans.log2 D D x) with
+      | .ok (some r, _) dbg => dbg = false ∧ 0 < x ∧ inRange D r ∧ (x ≤ 2 ^ D.f → r ≤ 0) ∧ (2 ^ D.f ≤ x → 0 ≤ r) ∧
+          (∀ k : Nat, x = 2 ^ k → r = ((k : Int) - D.f) * 2 ^ D.f)
+      | .ok (none, _) dbg => dbg = false ∧ (x ≤ 0 ∨ (0 < x ∧ x < 2 ^ D.f ∧ ¬ inRange D (divSpec D.f (2 ^ D.f) x)))
+      | .panic => False) ∧
+    (match Trans.run (Trans.ln D D x) with
+      | .ok (some r, _) dbg => dbg = false ∧ 0 < x ∧ inRange D r
+      | .ok (none, _) dbg => dbg = false ∧ (x ≤ 0 ∨ (0 < x ∧ x < 2 ^ D.f ∧ ¬ inRange D (divSpec D.f (2 ^ D.f) x)))
+      | .panic => False) :=
+  ⟨log2_total D h.1 h.2.1 h.2.2.1 h.2.2.2 x hx, ln_total D h.1 h.2.1 h.2.2.1 h.2.2.2 x hx⟩
+
+/-- non-vacuity: log2 of 8.0 in I32F32 is exactly 3.0 -/
+example : Trans.run (Trans.log2 ⟨true, 64, 32⟩ ⟨true, 64, 32⟩ (8 * 2 ^ 32)) = .ok (some (3 * 2 ^ 32), 3) false := by decide +kernel
+
 end Sfx.C14
